@@ -77,7 +77,7 @@ def build_native():
     outdir = os.path.join(WORK, "native", rh)
     out = os.path.join(outdir, "_lang.abi3.so")
     installed = os.path.join(SRC, "basilisp", "_lang.abi3.so")
-    with _Lock("native"):
+    with _Lock("native_" + rh):
         if not os.path.exists(out):
             env = dict(os.environ, CARGO_NET_OFFLINE="true", PYO3_BUILD_EXTENSION_MODULE="1",
                        PYO3_PYTHON=PY)
@@ -131,7 +131,7 @@ def prepare(verbose=False):
     so = _native_cached()
     th = tree_hash()
     pyc = os.path.join(WORK, "pyc", th)
-    with _Lock("warm"):
+    with _Lock("warm_" + th):
         if not os.path.exists(os.path.join(pyc, ".warm")):
             os.makedirs(pyc, exist_ok=True)
             p = subprocess.run([PY, "-c", "import boot; boot.init(); print('ok')"],
